@@ -9,6 +9,7 @@ import (
 	"go/parser"
 	"go/token"
 	"go/types"
+	"sort"
 	"strconv"
 	"strings"
 )
@@ -687,6 +688,50 @@ func (x *X) coerceToSort(v Value, s Sort) *Term {
 	return t
 }
 
+type heapRead struct {
+	name string
+	sort Sort
+}
+
+var opaqueReadsCache = map[*SpecFunc][]heapRead{}
+
+// opaqueReads returns the heaps the body of an opaque spec function reads (found by evaluating the body once
+// with a recorder on heap lookups; heap names depend on static types only, so the set is the same for every
+// application).
+func (x *X) opaqueReads(env *SpecEnv, sf *SpecFunc, args []Value) []heapRead {
+	if r, ok := opaqueReadsCache[sf]; ok {
+		return r
+	}
+	outer := x.c.heapRec
+	rec := map[string]Sort{}
+	x.c.heapRec = rec
+	was := x.revealed[sf.Name]
+	if x.revealed == nil {
+		x.revealed = map[string]bool{}
+	}
+	x.revealed[sf.Name] = true
+	func() {
+		defer func() {
+			x.c.heapRec = outer
+			x.revealed[sf.Name] = was
+		}()
+		x.applySpecFunc(env, sf, args)
+	}()
+	var out []heapRead
+	for n, s := range rec {
+		if n == allocName {
+			continue // the allocation counter is consulted for well-formedness facts only
+		}
+		out = append(out, heapRead{n, s})
+		if outer != nil {
+			outer[n] = s
+		}
+	}
+	sort.Slice(out, func(i, j int) bool { return out[i].name < out[j].name })
+	opaqueReadsCache[sf] = out
+	return out
+}
+
 func (x *X) applySpecFunc(env *SpecEnv, sf *SpecFunc, args []Value) Value {
 	if len(args) != len(sf.Params) {
 		fail("spec function %s: %d args, want %d", sf.Name, len(args), len(sf.Params))
@@ -712,6 +757,11 @@ func (x *X) applySpecFunc(env *SpecEnv, sf *SpecFunc, args []Value) Value {
 				fail("%s: opaque spec functions need scalar parameters: %v", sf.Name, err)
 			}
 			ts = append(ts, x.coerceToSort(args[i], s))
+		}
+		// ... and of the heaps its body reads, in the state it is applied in (so a write to one of them
+		// between two applications separates them)
+		for _, hr := range x.opaqueReads(env, sf, args) {
+			ts = append(ts, x.c.heap(env.st, hr.name, hr.sort))
 		}
 		l := layoutOf(rt)
 		return scalar(rt, x.c.uf("opaque!"+sf.Name, l.Comps[0].Sort, ts...))
